@@ -41,6 +41,11 @@ def gen(rng, tier):
         n = G.random_nfa(rng, k, sigma, eps, peps=rng.choice([0.0, 0.2, 0.5]))
         sets = [rng.sample(n['Q'], rng.randint(0, k)) for _ in range(3)]
         cases.append({'kind': 'nfa', 'N': n, 'ws': G.random_words(rng, sigma, 24, 7), 'sets': sets})
+    # partial transition relations given as a plain dict (no defaultdict): a missing key means the empty set
+    for _ in range(40 if quick else 600):
+        sigma = rng.choice(['a', 'ab'])
+        n = G.random_nfa(rng, rng.randint(1, 5), sigma, rng.choice(['_', '']), peps=0.3)
+        cases.append({'kind': 'nfa', 'N': n, 'ws': G.random_words(rng, sigma, 10, 5), 'sets': [], 'plain': True})
     return cases
 
 
@@ -55,7 +60,7 @@ def observe(c):
             accs.append(bool(r[1]) if ok(r) else None)
         return {'accs': accs}
     from gambatools.nfa_algorithms import nfa_accepts_word, epsilon_closure, _nfa_cache
-    N = conv.nfa_obj(c['N'])
+    N = conv.nfa_obj(c['N'], plain_dict=bool(c.get('plain')))
     accs = []
     for w in c['ws']:
         r = safe(nfa_accepts_word, N, w)
